@@ -5,8 +5,6 @@ From HS Require Import GTac Node.
 Import ListNotations.
 Open Scope N_scope.
 
-Definition dround d := match d with DBlk _ r _ _ => r | _ => 0 end.
-Definition dparent d := match d with DBlk _ _ _ p => p | _ => DZero end.
 Definition is_blk d := match d with DBlk _ _ _ _ => True | _ => False end.
 
 Inductive ext : digest -> digest -> Prop :=
